@@ -605,6 +605,13 @@ func (rs *s3ClientStorage) PutObject(ctx context.Context, bucketName storage.Buc
 		input.WebsiteRedirectLocation = opts.Metadata.WebsiteRedirectLocation
 		input.Metadata = opts.Metadata.UserMetadata
 	}
+	if opts != nil && len(opts.Tags) > 0 {
+		values := url.Values{}
+		for k, v := range opts.Tags {
+			values.Set(k, v)
+		}
+		input.Tagging = aws.String(values.Encode())
+	}
 	if opts != nil && opts.StorageClass != nil {
 		input.StorageClass = types.StorageClass(*opts.StorageClass)
 	}
